@@ -227,3 +227,83 @@
     // greatest index entry at or below `start` (the first entry if none) — assumed (closure-based binary_search_by_key is outside Verus)
     ensures exists|p: int| 0 <= p < self.indexs@.len() && *r == #[trigger] self.indexs@[p]
         && (self.indexs@[p].log_index <= start || p == 0) && (p + 1 < self.indexs@.len() ==> self.indexs@[p + 1].log_index > start),
+@@ LogInnerManager::flush_log spec
+    requires old(self).start_index + old(self).msg_count <= u64::MAX
+    ensures final(self).data_file.contents() == old(self).data_file.contents(), final(self).index_file.contents() == old(self).index_file.contents(),
+        final(self).data_file.pos() == old(self).data_file.pos(),
+        final(self).header == old(self).header, final(self).indexs == old(self).indexs, final(self).start_index == old(self).start_index,
+        final(self).index_cursor == old(self).index_cursor, final(self).file_len == old(self).file_len, final(self).data_cursor == old(self).data_cursor,
+        final(self).msg_count == old(self).msg_count, final(self).last_term == old(self).last_term,
+        final(self).current_index_count == old(self).current_index_count, final(self).need_seek_at_write == old(self).need_seek_at_write,
+        final(self).split_off_index == old(self).split_off_index,
+@@ LogInnerManager::write spec
+    requires old(self).wf()
+    ensures r is Ok ==> (match r.unwrap() {
+            // C02: an acknowledged append stores exactly this entry behind the entries already there and nothing else changes
+            LogWriteMark::Success | LogWriteMark::SuccessToEnd =>
+                final(self).wf() && final(self).start_index == old(self).start_index && final(self).msg_count == old(self).msg_count + 1
+                && record.index == old(self).start_index + old(self).msg_count && final(self).last_term == record.term
+                && final(self).data_file.contents().subrange(old(self).data_cursor as int, final(self).data_cursor as int) == pb_frame(rec_msg(*record))
+                && final(self).data_file.contents().take(old(self).data_cursor as int) == old(self).data_file.contents().take(old(self).data_cursor as int),
+            // C03: an append at any index other than the end index is refused and changes nothing
+            LogWriteMark::IndexEqualError => *final(self) == *old(self) && record.index != old(self).start_index + old(self).msg_count,
+            // a full file refuses the append and keeps every byte
+            LogWriteMark::Failure => final(self).wf() && final(self).data_file.contents() == old(self).data_file.contents()
+                && final(self).index_file.contents() == old(self).index_file.contents() && final(self).msg_count == old(self).msg_count
+                && final(self).start_index == old(self).start_index,
+            LogWriteMark::Error => true,
+        }),
+@@ LogInnerManager::write entry
+    broadcast use group_std_extra;
+    broadcast use axiom_rec_nonempty;
+    let ghost o = *self;
+    let ghost d0 = self.data_file.contents();
+    let ghost s0 = self.recs();
+    let ghost k0 = self.msg_count as nat;
+    let ghost b0 = self.used();
+@@ LogInnerManager::write before_stmt 7
+    let ghost body = rec_msg(*record).pb_bytes();
+    let ghost frame = enc(body.len() as nat).add(body);
+    let ghost c0 = o.data_cursor as int;
+    proof {
+        lemma_enc_len_table(body.len() as nat);
+        assert(buf@ =~= frame);
+    }
+@@ LogInnerManager::write before_stmt 8
+    let ghost d_mid = self.data_file.contents();
+    proof {
+        assert(d_mid.take(c0) =~= d0.take(c0));
+        assert forall|i: int| c0 <= i < d_mid.len() implies #[trigger] d_mid[i] == 0u8 by {
+            if i < d0.len() { assert(d0[i] == 0u8); }
+        }
+        assert(zero_from(d_mid, c0));
+    }
+@@ LogInnerManager::write before_stmt 10
+    let ghost d1 = self.data_file.contents();
+    proof {
+        assert(d1.take(c0) =~= d0.take(c0)) by {
+            assert forall|i: int| 0 <= i < c0 implies d1[i] == d0[i] by { assert(d_mid.take(c0)[i] == d0.take(c0)[i]); }
+        }
+        assert forall|i: int| c0 + frame.len() <= i < d1.len() implies #[trigger] d1[i] == 0u8 by {
+            assert(d_mid[i] == 0u8);
+        }
+        assert(zero_from(d1, c0 + frame.len()));
+        assert(d1.subrange(c0, c0 + frame.len()) =~= frame);
+    }
+@@ LogInnerManager::write before_stmt 14
+    proof {
+        lemma_scan_mono(o.recs(), (o.indexs@.last().log_index - o.start_index) as nat, o.msg_count as nat);
+        lemma_enc_len(body.len() as nat);
+        lemma_enc_len_table((self.data_cursor - o.indexs@.last().file_index) as nat);
+        lemma_idx_area_len(o.indexs@);
+    }
+@@ LogInnerManager::write before_return 3
+    proof {
+        assert(write_data_step(o, *self, body));
+        lemma_write_wf(o, *self, body);
+    }
+@@ LogInnerManager::write before_tail
+    proof {
+        assert(write_data_step(o, *self, body));
+        lemma_write_wf(o, *self, body);
+    }
